@@ -73,7 +73,7 @@ Lemma track_rest k :
   let n := getn s k in let n' := getn s' k in
   sval n' = sval n /\ st n' = st n /\ cache n' = cache n /\ rlog n' = rlog n /\ since n' = since n /\
   edirty n' = edirty n /\ eflag n' = eflag n /\ ereg n' = ereg n /\ efirst n' = efirst n /\
-  epaused n' = epaused n /\ ealive n' = ealive n /\ edone n' = edone n /\ emissed n' = emissed n.
+  epaused n' = epaused n /\ ealive n' = ealive n /\ edone n' = edone n /\ emissed n' = emissed n /\ epoll n' = epoll n.
 Proof.
   cbv zeta. destruct (Nat.eq_dec k o) as [->|Hko]; [rewrite track_obs; nsimpl; intuition|].
   destruct (Nat.eq_dec k j) as [->|Hkj]; [rewrite track_src; nsimpl; intuition|].
@@ -119,7 +119,7 @@ Lemma unsub_all_fields i l : forall s k,
    sval n' = sval n /\ st n' = st n /\ cache n' = cache n /\ srcs n' = srcs n /\ rlog n' = rlog n /\
    since n' = since n /\ edirty n' = edirty n /\ eflag n' = eflag n /\ ereg n' = ereg n /\
    efirst n' = efirst n /\ epaused n' = epaused n /\ ealive n' = ealive n /\ edone n' = edone n /\
-   emissed n' = emissed n) /\
+   emissed n' = emissed n /\ epoll n' = epoll n) /\
   err s' = err s /\ ready s' = ready s /\ trace s' = trace s /\ nocause s' = nocause s /\
   halted s' = halted s.
 Proof.
@@ -151,7 +151,7 @@ Proof.
         sval n' = sval n /\ st n' = st n /\ cache n' = cache n /\ srcs n' = srcs n /\ rlog n' = rlog n /\
         since n' = since n /\ edirty n' = edirty n /\ eflag n' = eflag n /\ ereg n' = ereg n /\
         efirst n' = efirst n /\ epaused n' = epaused n /\ ealive n' = ealive n /\ edone n' = edone n /\
-        emissed n' = emissed n).
+        emissed n' = emissed n /\ epoll n' = epoll n).
       { cbv zeta. unfold s1.
         destruct (getn_updn_cases a (fun n => set_subs n (unsubscribe (subs n) i)) s k) as [[-> E]|E];
           rewrite E; nsimpl; intuition. }
@@ -200,7 +200,7 @@ Lemma clear_rest k :
   let n := getn s k in let n' := getn s' k in
   sval n' = sval n /\ st n' = st n /\ cache n' = cache n /\ rlog n' = rlog n /\ since n' = since n /\
   edirty n' = edirty n /\ eflag n' = eflag n /\ ereg n' = ereg n /\ efirst n' = efirst n /\
-  epaused n' = epaused n /\ ealive n' = ealive n /\ edone n' = edone n /\ emissed n' = emissed n.
+  epaused n' = epaused n /\ ealive n' = ealive n /\ edone n' = edone n /\ emissed n' = emissed n /\ epoll n' = epoll n.
 Proof.
   cbv zeta. unfold s'. rewrite clear_sources_eq.
   destruct (unsub_all_fields i (srcs (getn s i)) s k (wf_nodup p s W)) as (Hl & _ & _ & Hf & _).
